@@ -16,9 +16,19 @@ from sa.report import Report
 PROPS = [f"C{i:02d}" for i in range(1, 21)]
 
 
+_RULE_TEXT = {p: open(os.path.join(HERE, "rules", f"{p}.py")).read() for p in PROPS}
+
+
+def props_for(modname: str, qual: str, cls_name: str | None) -> list[str]:
+    """The properties whose rule files name this function, its class, or its module (with --narrow)."""
+    short = qual.rsplit(".", 1)[1]
+    last = modname.rsplit(".", 1)[-1]
+    return [p for p in PROPS if short in _RULE_TEXT[p] or (cls_name and cls_name in _RULE_TEXT[p]) or f"{modname}" in _RULE_TEXT[p] or f".{last}" in _RULE_TEXT[p]]
+
+
 def run_all(ctx, touched=None):
     out = set()
-    for p in PROPS:
+    for p in (touched or PROPS):
         mod = importlib.import_module(f"rules.{p}")
         for name, fn in mod.RULES:
             rep = Report(p, "quick")
@@ -37,12 +47,12 @@ def run_all(ctx, touched=None):
     return out
 
 
-from sa.variants import flipped_source, named_cond_source, renamed_source  # noqa: E402
+from sa.variants import extracted_source, flipped_source, named_cond_source, renamed_source  # noqa: E402
 
 
 _BASE = None
 _BASE_REPORTS = None
-MODE = "flip" if "--flip" in sys.argv else "name" if "--name-cond" in sys.argv else "rename"
+MODE = "flip" if "--flip" in sys.argv else "name" if "--name-cond" in sys.argv else "extract" if "--extract" in sys.argv else "rename"
 
 
 def _init():
@@ -55,14 +65,15 @@ def work(job):
     modname, qual = job
     mi = _BASE.module(modname)
     fi = _BASE.prog.functions[qual]
-    new = {"flip": flipped_source, "name": named_cond_source, "rename": renamed_source}[MODE](mi.source, fi.node)
+    new = {"flip": flipped_source, "name": named_cond_source, "rename": renamed_source, "extract": extracted_source}[MODE](mi.source, fi.node)
     if new is None:
         return qual, None
     try:
         compile(new, modname, "exec")
     except SyntaxError:
         return qual, None
-    got = run_all(_BASE.fork(modname, new)) - _BASE_REPORTS
+    props = props_for(modname, qual, fi.cls.name if fi.cls is not None else None) if "--narrow" in sys.argv else None
+    got = run_all(_BASE.fork(modname, new), props) - _BASE_REPORTS
     return qual, sorted(got)
 
 
@@ -98,7 +109,7 @@ def main():
         for qual, got in pool.imap_unordered(work, jobs, chunksize=4):
             if got:
                 bad += 1
-                print(f"FALSE ALARM {'flipping the comparisons' if MODE == 'flip' else 'naming the refusing conditions' if MODE == 'name' else 'renaming the locals'} of {qual}:")
+                print(f"FALSE ALARM {'flipping the comparisons' if MODE == 'flip' else 'naming the refusing conditions' if MODE == 'name' else 'extracting returns, first arguments and conditional expressions' if MODE == 'extract' else 'renaming the locals'} of {qual}:")
                 for g in got[:6]:
                     print("     ", g)
                 sys.stdout.flush()
